@@ -21,7 +21,7 @@ type Interpreter struct {
 	commands         map[string]Command
 	cronTasks        []CronTask
 	eventHandlers    map[string][]EventHandler
-	eventMu          sync.RWMutex
+	eventMu          *sync.RWMutex // a pointer: forEvaluation copies the struct
 	queueWorkers     map[string]QueueWorker
 	grpcServices     map[string]GRPCService     // key: service name
 	grpcHandlers     map[string]GRPCHandler     // key: method name
@@ -55,6 +55,7 @@ func NewInterpreter() *Interpreter {
 		cronTasks:        []CronTask{},
 		testBlocks:       []TestBlock{},
 		eventHandlers:    make(map[string][]EventHandler),
+		eventMu:          &sync.RWMutex{},
 		queueWorkers:     make(map[string]QueueWorker),
 		grpcServices:     make(map[string]GRPCService),
 		grpcHandlers:     make(map[string]GRPCHandler),
@@ -69,6 +70,27 @@ func NewInterpreter() *Interpreter {
 		traitDefs:        make(map[string]TraitDef),
 		macros:           make(map[string]*MacroDef),
 	}
+}
+
+// forEvaluation returns the view of the interpreter that one evaluation (a
+// request, an event, an async block) runs on. Everything that is set up while
+// the module loads is shared. The recursion depth counter and the
+// type-parameter scope of generic calls belong to the evaluation: one
+// interpreter serves all concurrent requests, and with a single counter they
+// used up each other's recursion budget ("maximum evaluation depth exceeded"
+// for a request far below the limit), while concurrent generic calls wrote
+// the single scope map at once (fatal "concurrent map writes").
+// It must be called on the goroutine that owns i.
+func (i *Interpreter) forEvaluation() *Interpreter {
+	c := *i
+	c.evalDepth = 0
+	tc := *i.typeChecker
+	tc.typeScope = make(map[string]Type, len(i.typeChecker.typeScope))
+	for name, t := range i.typeChecker.typeScope {
+		tc.typeScope[name] = t
+	}
+	c.typeChecker = &tc
+	return &c
 }
 
 // IsConstant checks if a name refers to a constant (immutable) binding
@@ -496,6 +518,7 @@ func (i *Interpreter) injectDependency(injection Injection, env *Environment) {
 
 // ExecuteRoute executes a route with the given request
 func (i *Interpreter) ExecuteRoute(route *Route, request *Request) (*Response, error) {
+	i = i.forEvaluation()
 	// Create a new environment for the route
 	routeEnv := NewChildEnvironment(i.globalEnv)
 
@@ -940,6 +963,7 @@ func (i *Interpreter) ExecuteCronTask(task *CronTask) (interface{}, error) {
 
 // ExecuteEventHandler executes an event handler with the given event data
 func (i *Interpreter) ExecuteEventHandler(handler *EventHandler, eventData interface{}) (interface{}, error) {
+	i = i.forEvaluation()
 	// Create a new environment for the handler
 	handlerEnv := NewChildEnvironment(i.globalEnv)
 
@@ -990,6 +1014,7 @@ func (i *Interpreter) EmitEvent(eventType string, eventData interface{}) error {
 
 // ExecuteQueueWorker executes a queue worker with the given message
 func (i *Interpreter) ExecuteQueueWorker(worker *QueueWorker, message interface{}) (interface{}, error) {
+	i = i.forEvaluation()
 	// Create a new environment for the worker
 	workerEnv := NewChildEnvironment(i.globalEnv)
 
@@ -1053,6 +1078,7 @@ func (i *Interpreter) GetTypeDefs() map[string]TypeDef {
 
 // ExecuteGRPCHandler executes a gRPC handler with the given request.
 func (i *Interpreter) ExecuteGRPCHandler(handler *GRPCHandler, args map[string]interface{}, authData map[string]interface{}) (interface{}, error) {
+	i = i.forEvaluation()
 	if handler == nil {
 		return nil, fmt.Errorf("handler is nil")
 	}
@@ -1097,6 +1123,7 @@ func (i *Interpreter) ExecuteGRPCHandler(handler *GRPCHandler, args map[string]i
 
 // ExecuteGraphQLResolver executes a single GraphQL resolver with the given arguments.
 func (i *Interpreter) ExecuteGraphQLResolver(resolver *GraphQLResolver, args map[string]interface{}, authData map[string]interface{}) (interface{}, error) {
+	i = i.forEvaluation()
 	if resolver == nil {
 		return nil, fmt.Errorf("resolver is nil")
 	}
